@@ -21,6 +21,7 @@ from __future__ import annotations
 
 import itertools
 import json
+import math
 import random
 import sys
 
@@ -73,6 +74,32 @@ def stm_case(ck, cs, system, cfg):
     if len(ck.cov["samples"]) < 3:
         ck.sample({"config": cfg, "observables": {e["name"]: e["value"] for e in t["ev"]}})
     return t
+
+
+def nu_observation(ck):
+    """Growth beyond C03's wording: the stability-index pairing model (NuPairing.tla, as found) is replayed into the real
+    _compute_nu_from_eigvals for every ordering the caller can produce; order dependence is reported as an observation."""
+    import re
+    from hiten.algorithms.linalg.backend import _LinalgBackend
+    r = tlc(SPEC / "kernels" / "NuPairing.tla", SPEC / "cfg" / "NuPairing.cfg", timeout=300)
+    ck.model("NuPairing", r)
+    rq = tlc(SPEC / "kernels" / "NuPairing.tla", SPEC / "cfg" / "NuPairing.req.cfg", timeout=300)
+    rows = re.findall(r'<<"NU", <<(.*?)>>, <<(.*?)>>>>', r.out)
+    val = {"L": 3.0, "l": 1 / 3.0, "A": 1.0, "B": 1.0, "u": complex(math.cos(0.7), math.sin(0.7)), "v": complex(math.cos(0.7), -math.sin(0.7))}
+    be = _LinalgBackend() if callable(_LinalgBackend) else None
+    agree = nan_orders = 0
+    for o, rep in rows:
+        order = [x.strip().strip('"') for x in o.split(",")]
+        exp = [x.strip().strip('"') for x in rep.split(",")]
+        nu = be._compute_nu_from_eigvals(np.array([val[x] for x in order], dtype=complex), 1e-8)
+        got_nan = [bool(np.isnan(v)) for v in np.asarray(nu)]
+        agree += int(got_nan == [e == "nan" for e in exp])
+        nan_orders += int(any(got_nan))
+    ck.part("nu_pairing_observation", orderings=len(rows), code_agrees_with_as_found_model=agree, orderings_with_nan_index=nan_orders,
+            requirement_holds_in_model=bool(rq.ok))
+    if nan_orders:
+        ck.notes.append(f"observation (outside C03's wording): stability indices depend on the order of the unit-modulus eigenvalues; "
+                        f"{nan_orders} of {len(rows)} reachable orderings yield a NaN index (NuPairing.tla)")
 
 
 def main(tier=None, replay=None):
@@ -144,6 +171,10 @@ def main(tier=None, replay=None):
     cs.decide(key_fn=lambda t, n: ("_compute_stm|forward=-1|" + n if (t["data"] or {}).get("forward") == -1
                                    else ("orbit.monodromy|" + n if "family" in (t["data"] or {}) else "_compute_stm|" + n)))
     cs.selftest()
+    try:
+        nu_observation(ck)
+    except Exception as ex:      # an observation must never break the check
+        ck.notes.append(f"nu pairing observation skipped: {ex!r}")
     ck.cov["rule"] = ("configurations enumerated by TLC from StmConfigs.tla (system x method x order x duration x planar/spatial "
                       "x direction; only combinations the specification marks valid); one contract trace per configuration, "
                       "plus corrected periodic orbits for the monodromy clause")
